@@ -326,6 +326,7 @@ func (a *A) ruleExpiryDecisionAtomic() int {
 	}
 	decides := map[*ssa.Function]bool{}
 	removes := map[*ssa.Function]bool{}
+	decidesHere := map[ssa.Instruction]bool{} // the time comparisons of a scan over sessionMap: the decision itself
 	var methods []*ssa.Function
 	for _, fn := range a.ModFuncs {
 		if fn.Blocks == nil || !isMethodOfW(fn) {
@@ -342,6 +343,7 @@ func (a *A) ruleExpiryDecisionAtomic() int {
 						switch timeMethod(&c.Call) {
 						case "Before", "After", "Equal", "Compare":
 							decides[fn] = true
+							decidesHere[in] = true
 						}
 					}
 				}
@@ -379,7 +381,8 @@ func (a *A) ruleExpiryDecisionAtomic() int {
 	}
 	n := 0
 	for _, fn := range methods {
-		isDecision := func(in ssa.Instruction) bool { return callsInto(in, decides) }
+		// the decision is a call of a deciding method, or the scan written out in this very method
+		isDecision := func(in ssa.Instruction) bool { return callsInto(in, decides) || decidesHere[in] }
 		isRemoval := func(in ssa.Instruction) bool {
 			if callsInto(in, removes) {
 				return true
